@@ -116,6 +116,26 @@ def c06_trees(n, seed, procs):
                 if snap(x) != s0:
                     fails.append(dict(what="operand altered by operation producing %s" % no, oracle="c06_trees", input=dict(seed=seed, it=it, tree=list(log)), tags=["c06"]))
             (pts if kind == "p" else exs).append((o, vo, no))
+        # augmented assignments on aliased operands, and coefficients of very different magnitudes
+        (a, va, na), (b, vb, nb) = rnd.choice(pts), rnd.choice(pts)
+        (ea, vea, nea), (eb, veb, neb) = rnd.choice(exs), rnd.choice(exs)
+        sa, sea = snap(a), snap(ea)
+        x = a; x += b
+        y = ea; y += eb
+        z = ea; z -= eb
+        w = a; w *= 2.0
+        if snap(a) != sa or snap(ea) != sea or a.get_is_leaf() != (a in P) :
+            fails.append(dict(what="augmented assignment (+=, -=, *=) altered the aliased operand %s / %s" % (na, nea), oracle="c06_trees", input=dict(seed=seed, it=it, tree=list(log) + ["x=%s; x+=%s" % (na, nb), "y=%s; y+=%s" % (nea, neb)]), tags=["c06"]))
+        if eval_p(x, V) != [p_ + q_ for p_, q_ in zip(va, vb)] or eval_e(y, V, F) != vea + veb or eval_e(z, V, F) != vea - veb:
+            fails.append(dict(what="augmented assignment does not denote the sum/difference", oracle="c06_trees", input=dict(seed=seed, it=it, tree=list(log)), tags=["c06"]))
+        tiny = 2.0 ** -rnd.choice([40, 50, 60])
+        lp, lq = P[0], P[-1]
+        t1 = lp - tiny * lq if lp is not lq else lp * tiny
+        want = {lp.counter: Fr(1), lq.counter: Fr(-tiny)} if lp is not lq else {lp.counter: Fr(tiny)}
+        t2 = (tiny * E[0] + 0) * (1 / tiny)
+        if pdict(t1) != want or edict(t2) != {("f", E[0].counter): Fr(1)} or edict((t1 * lp) <= 1 if False else (t1 * lp)).get(("ip", lq.counter, lp.counter) if lp is not lq else ("ip", lp.counter, lp.counter)) in (None, 0):
+            fails.append(dict(what="a coefficient of magnitude %g is lost: p - %g*q has decomposition %s" % (tiny, tiny, {k: float(v) for k, v in pdict(t1).items()}), oracle="c06_trees",
+                              input=dict(seed=seed, it=it, expr="p - %g*q, (%g*e + 0)/%g" % (tiny, tiny, tiny)), observed=str(pdict(t1)), expected=str(want), tags=["c06"]))
         distinct.add(tuple(log))
         if it < 2: samples.append(log[:12])
         if len(fails) > 5: break
